@@ -68,10 +68,11 @@ func TestC13(t *testing.T) {
 			parkedWriteCase(t, r, i)
 		}
 		fileCacheModes(r, tmp)
+		realFileCacheRestarts(t, r, tmp)
 		crashPart(t, r, tmp)
 	}
 	r.Require("payloads_checked", "restarts_from_payload", "fileclient_checks", "flush_after_lookup", "flush_after_poll", "flush_on_shutdown",
-		"fuzz_certainly_valid", "fuzz_certainly_invalid", "fuzz_grey", "cache_write_failures", "parked_write_cases", "crash_points", "io_errors_injected", "steps_with_stale_pinned_secrets")
+		"fuzz_certainly_valid", "fuzz_certainly_invalid", "fuzz_grey", "cache_write_failures", "parked_write_cases", "crash_points", "io_errors_injected", "steps_with_stale_pinned_secrets", "restarts_from_real_cache_files")
 	r.Rule("histories: initial fetch, lookups, polls with/without service changes (some with failing cache writes), shutdown; after every step the last payload must be a complete document of exactly the known names with their current version+bytes, a new store started from it with a dead service must serve the same, and NewFileClient must agree on non-empty secrets. Fuzz: documents mutated around the valid format (bit flips, truncations, token splices, nulls, wrong types, duplicate/empty keys, case variants, nesting, invalid UTF-8). Crash part: every system call of FileCache.Write as kill point and as error point. Distinct = (step kind, flush expected?), fuzz (mutation, class, sources used), crash (syscall, fault)")
 }
 
@@ -935,3 +936,81 @@ func fileCacheModes(r *evid.Run, tmp string) {
 }
 
 var _ = rand.IntN
+
+// realFileCacheRestarts: the real FileCache end to end, with documents from a few bytes to several megabytes
+// (large secrets, many secrets): a store fills it, is closed, and a new store starts from the same file while
+// the service is unreachable; it must serve exactly the same values, and so must a FileClient on that file.
+func realFileCacheRestarts(t *testing.T, r *evid.Run, tmp string) {
+	rng := r.Rand(131313)
+	shapes := []struct {
+		n, size int
+	}{{1, 10}, {3, 1000}, {2, 300 << 10}, {5, 300 << 10}, {1, 2 << 20}, {400, 3000}, {3, 1 << 20}}
+	for si, sh := range shapes {
+		dir := filepath.Join(tmp, fmt.Sprintf("realcache%d", si))
+		path := filepath.Join(dir, "cache.json")
+		svc := fakesvc.New()
+		var names []string
+		want := map[string][]byte{}
+		for i := 0; i < sh.n; i++ {
+			nme := fmt.Sprintf("big/%d", i)
+			v := make([]byte, sh.size)
+			for k := range v {
+				v[k] = byte(rng.IntN(256))
+			}
+			names = append(names, nme)
+			want[nme] = v
+			svc.Set(nme, uint32(1+i%3), v)
+		}
+		fc, err := setec.NewFileCache(path)
+		if err != nil {
+			t.Fatal(err)
+		}
+		st, err := setec.NewStore(context.Background(), setec.StoreConfig{Client: svc, Secrets: names, Cache: fc, PollInterval: -1, Logf: func(string, ...any) {}})
+		if err != nil {
+			r.Violation("newstore-fails", -1, fmt.Sprintf("real file cache, %d secrets of %d bytes: %v", sh.n, sh.size, err), nil)
+			continue
+		}
+		st.Close()
+		fi, _ := os.Stat(path)
+		r.Eval(1)
+		r.Count("restarts_from_real_cache_files", 1)
+		r.Distinct(fmt.Sprintf("real cache file %d secrets x %d bytes", sh.n, sh.size))
+		// the service is gone
+		dead := fakesvc.New()
+		dead.Behave = func(*fakesvc.Req) fakesvc.Behaviour { return fakesvc.Behaviour{Fail: fakesvc.ErrInjected, Plain: true} }
+		fc2, err := setec.NewFileCache(path)
+		if err != nil {
+			t.Fatal(err)
+		}
+		ctx, cancel := context.WithTimeout(context.Background(), 3*time.Second)
+		st2, err := setec.NewStore(ctx, setec.StoreConfig{Client: dead, Secrets: names, Cache: fc2, PollInterval: -1, Logf: func(string, ...any) {}})
+		cancel()
+		if err != nil {
+			var size int64
+			if fi != nil {
+				size = fi.Size()
+			}
+			r.Violation("restart-from-cache-fails", -1, fmt.Sprintf("a store that filled a real cache file (%d secrets of %d bytes, file of %d bytes) was closed; a new store on the same file with the service unreachable does not start: %v", sh.n, sh.size, size, err), nil)
+			continue
+		}
+		for _, nme := range names {
+			if got := st2.Secret(nme).Get(); !bytes.Equal(got, want[nme]) {
+				r.Violation("restart-serves-other-bytes", -1, fmt.Sprintf("restarted from the real cache file, %q yields %d bytes, want %d", nme, len(got), len(want[nme])), nil)
+				break
+			}
+		}
+		st2.Close()
+		fcl, err := setec.NewFileClient(path)
+		if err != nil {
+			r.Violation("fileclient-rejects-cache", -1, err.Error(), nil)
+			continue
+		}
+		for _, nme := range names {
+			sv, err := fcl.Get(context.Background(), nme)
+			if err != nil || !bytes.Equal(sv.Value, want[nme]) {
+				r.Violation("fileclient-differs", -1, fmt.Sprintf("FileClient on the real cache file: %q: err %v", nme, err), nil)
+				break
+			}
+		}
+	}
+}
